@@ -215,14 +215,20 @@ class GaussTN(ZooModel):
             o[n] = self.m0[i] + self.s0[i] * ndtri(ndtr((self.lo - self.m0[i]) / self.s0[i]) + x[n] * self._C[i])
         return o
 
+    box_draws = False  # True: keep nessai's default uniform-in-box new_point (prior then enters through the rejection weights)
+
     def new_point(self, N=1):
         from nessai.livepoint import numpy_array_to_live_points
 
+        if self.box_draws:
+            return Model.new_point(self, N=N)
         u = np.random.rand(N, len(self.names))
         p = numpy_array_to_live_points(u, self.names)
         return self.from_unit_hypercube(p)
 
     def new_point_log_prob(self, x):
+        if self.box_draws:
+            return Model.new_point_log_prob(self, x)
         return self._lp(x)
 
     def sample_prior(self, n, rng):
@@ -330,6 +336,10 @@ def make(name, **kw):
         return GaussU(4, mu=[0.5, -1.0, 0.0, 1.5], sigma=[1.0, 0.7, 1.3, 0.9], **kw)
     if name == "G2n":
         return GaussTN(2, **kw)
+    if name == "G2r":
+        m = GaussTN(2, **kw)
+        m.box_draws = True
+        return m
     if name == "Ex2":
         return Ex2(2, **kw)
     if name == "Tie2":
